@@ -1,7 +1,9 @@
 import PytezosModel.Proofs.InterpGood
+set_option linter.unusedSectionVars false   -- `[Mode]` is a section variable of every lemma here; some do not use it
 /-! Ordered insertion / deletion keep a set / map of the interpreter model well-formed (`goodSet` / `goodMap`): C14's
 lemmas about strictly sorted lists, transported along the embedding of the keys of one simple comparable type. -/
 namespace Interp
+variable [Mode]
 open Typing List
 
 section
